@@ -87,6 +87,13 @@ func (d *ModelDriver) TakeCalls() []Call {
 	return c
 }
 
+// NCalls returns how many calls have been recorded since the last take.
+func (d *ModelDriver) NCalls() int {
+	d.mu.Lock()
+	defer d.mu.Unlock()
+	return len(d.Calls)
+}
+
 // Eligible returns how many fault-eligible calls have been seen so far.
 func (d *ModelDriver) Eligible() int {
 	d.mu.Lock()
